@@ -286,6 +286,8 @@ pub fn opt_kinds() -> Vec<(u32, K)> {
         (3, K::Nop),
         (8, K::Random),
         (3, K::RandomPerm),
+        (3, K::CuckooToPerm),
+        (2, K::DecomposeSwitch),
         (10, K::Prf),
         (4, K::PermPrf),
         (8, K::Dup),
